@@ -12,7 +12,7 @@ if ! git apply "$patch" 2>/tmp/apply.err; then
 fi
 git reset -q
 for c in "$@"; do
-  out=$(cd /verif && ${TIER:+VERIF_TIER=$TIER} ./check.sh $c 2>&1); rc=$?
+  out=$(cd ${VERIF_DIR:-/verif} && ${TIER:+VERIF_TIER=$TIER} ./check.sh $c 2>&1); rc=$?
   if [ $rc -eq 1 ] && echo "$out" | grep -q "^VIOLATION property=$c"; then
     echo "DETECTED $c by $(basename $(dirname $patch))/$(basename $patch): $(echo "$out" | grep -A1 '^VIOLATION' | grep clause | sort | uniq -c | sort -rn | head -3 | tr '\n' ' ')"
   else
